@@ -1,6 +1,6 @@
 (* to_y0 printers of dsl.py (with the repaired bracketing of product denominators). *)
 From Coq Require Import List Bool Arith String Ascii.
-From Y0 Require Import Base.ListSet Dsl.Syntax Dsl.Text Dsl.Build.
+From Y0 Require Import Base.ListSet Dsl.Syntax Dsl.Text.
 Import ListNotations.
 Open Scope string_scope.
 
